@@ -59,6 +59,18 @@ Theorem C11_blocking_session_partial : forall ident secret, (zlen ident <= 255)%
   BI ident secret (brun ident secret es).
 Proof. exact blk_handshake_partial. Qed.
 
+(* ---- the same for the asyncio session with its application-facing methods TRANSLATED from hpfeeds/asyncio/client.py on every
+   run (harness/pytrans6.py -> AioGen.v; AioGenEq.v).  No axioms. *)
+From HP Require Import AioGen AioGenEq.
+Theorem C11_src_asyncio_subscribe_is_model : forall ident secret c s, ClientSession_subscribe ident secret c s = do_sub ident secret c s.
+Proof. exact subscribe_src_eq. Qed.
+Theorem C11_src_asyncio_unsubscribe_is_model : forall ident secret c s, ClientSession_unsubscribe ident secret c s = do_unsub ident secret c s.
+Proof. exact unsubscribe_src_eq. Qed.
+Theorem C11_src_asyncio_run_is_model : forall ident secret es, arun_src ident secret es = arun ident secret es.
+Proof. exact arun_src_eq. Qed.
+Theorem C11_src_asyncio : forall ident secret, (zlen ident <= 255)%Z -> forall es, A (arun_src ident secret es).
+Proof. exact src_run_A. Qed.
+
 Print Assumptions C11_asyncio.
 Print Assumptions C11_blocking_session_refuted.
 Print Assumptions C11_blocking_session_partial.
@@ -67,3 +79,7 @@ Print Assumptions C11_legacy_accepted.
 Print Assumptions C11_legacy_first_frame.
 Print Assumptions C11_legacy_resubscribes.
 Print Assumptions C11_legacy_nonce_is_this_connections.
+Print Assumptions C11_src_asyncio_subscribe_is_model.
+Print Assumptions C11_src_asyncio_unsubscribe_is_model.
+Print Assumptions C11_src_asyncio_run_is_model.
+Print Assumptions C11_src_asyncio.
